@@ -568,6 +568,212 @@ func runHammer(ts []string) string {
 	return "ok"
 }
 
+// runBurst: `burst <prefix items> / p ; p … / <probe items>` — per round `copies` independent stores
+// all run the sequential prefix (one shared sleep per `sl`), then on each store the callers are
+// released together by one flag, then the probe runs sequentially. Returns the distinct outcomes
+// `<prefix answers> / <thread answers ; …> / <probe answers>` (sorted).
+func runBurst(pre []item, progs [][]item, suf []item, copies, rounds int) []string {
+	seen := map[string]bool{}
+	for r := 0; r < rounds; r++ {
+		stores := make([]*memory.Storage, copies)
+		preObs := make([][]string, copies)
+		valid := make([]bool, copies)
+		for j := range stores {
+			stores[j] = memory.New(context.Background())
+			valid[j] = true
+		}
+		// prefix, segment by segment
+		for i := 0; i <= len(pre); {
+			k := i
+			for k < len(pre) && pre[k].op != "sl" {
+				k++
+			}
+			for j, st := range stores {
+				t0 := time.Now()
+				for _, it := range pre[i:k] {
+					preObs[j] = append(preObs[j], doCall(st, it))
+				}
+				if time.Since(t0) > time.Millisecond {
+					valid[j] = false // a stalled segment could outlive a 2 ms lifetime set in it
+				}
+			}
+			if k < len(pre) {
+				time.Sleep(ttlOf(pre[k].args[0]))
+			}
+			i = k + 1
+		}
+		for j, st := range stores {
+			if valid[j] {
+				var start int32
+				var wg sync.WaitGroup
+				res := make([][]string, len(progs))
+				for i := range progs {
+					wg.Add(1)
+					go func(i int) {
+						defer wg.Done()
+						out := make([]string, 0, len(progs[i]))
+						for atomic.LoadInt32(&start) == 0 {
+						}
+						for _, it := range progs[i] {
+							out = append(out, doCall(st, it))
+						}
+						res[i] = out
+					}(i)
+				}
+				time.Sleep(10 * time.Microsecond)
+				atomic.StoreInt32(&start, 1)
+				wg.Wait()
+				var sufObs []string
+				for _, it := range suf {
+					sufObs = append(sufObs, doCall(st, it))
+				}
+				seen[strings.Join(preObs[j], " ")+" / "+renderThreads(res)+" / "+strings.Join(sufObs, " ")] = true
+			}
+			st.Close()
+		}
+	}
+	var outs []string
+	for o := range seen {
+		outs = append(outs, o)
+	}
+	sort.Strings(outs)
+	if len(outs) == 0 {
+		return []string{"timing-invalid"}
+	}
+	return outs
+}
+
+// runSweep: `sweep call|tick <keys> <writers> <rounds>` — the real CleanupExpired (called in a
+// loop, or driven by StartCleanup's ticker) against concurrent re-writes of many expired keys.
+// Round: write <keys> keys with a 2 ms lifetime, wait 6 ms (all expired), release the writers and
+// the sweeper by one flag; writer w re-writes the keys i ≡ w with Set / SetNX / CAS(nil) / IncrBy /
+// SetHash / AppendToList; afterwards every key is read back. No Delete is ever issued, so per key
+// the history `set, sleep, re-write, reads` is sequential and the sweep must be invisible in it.
+// Observation: `keys <n> lost <c> hist <per-key history> obs <its answers>` for the first key whose
+// read came back "nf" (or key 0 of the last round when none did); `holds` runs the reference on it.
+func runSweep(ts []string) string {
+	if len(ts) != 4 {
+		return "bad-case"
+	}
+	mode := ts[0]
+	nkeys, _ := strconv.Atoi(ts[1])
+	writers, _ := strconv.Atoi(ts[2])
+	rounds, _ := strconv.Atoi(ts[3])
+	if nkeys <= 0 || writers <= 0 || rounds <= 0 || (mode != "call" && mode != "tick") {
+		return "bad-case"
+	}
+	x, y := sTok("x"), sTok("y")
+	long := strconv.Itoa(longNS)
+	rewrite := func(k string, kind int) []item {
+		var line string
+		switch kind % 6 {
+		case 0:
+			line = "set " + k + " " + y + " 0 get " + k + " ttl " + k
+		case 1:
+			line = "nx " + k + " " + y + " " + long + " get " + k + " ttl " + k
+		case 2:
+			line = "cas " + k + " nil " + y + " 0 get " + k + " ttl " + k
+		case 3:
+			line = "incr " + k + " 7 get " + k + " ttl " + k
+		case 4:
+			line = "hset " + k + " f " + y + " hget " + k + " f ex " + k
+		default:
+			line = "app " + k + " " + y + " getl " + k + " ex " + k
+		}
+		its, _ := parseItems(strings.Fields(line))
+		return its
+	}
+	histOf := func(k string, its []item) string {
+		p := []string{"set", k, x, "2000000", "sl", "6000000"}
+		for _, it := range its {
+			p = append(p, it.op)
+			p = append(p, it.args...)
+		}
+		return strings.Join(p, " ")
+	}
+	totalLost := 0
+	report := ""
+	for r := 0; r < rounds; r++ {
+		st := memory.New(context.Background())
+		keys := make([]string, nkeys)
+		for i := range keys {
+			keys[i] = "k" + strconv.Itoa(i)
+			st.Set(keys[i], "x", 2*time.Millisecond)
+		}
+		time.Sleep(6 * time.Millisecond)
+		var start, writersDone int32
+		var wg, sw sync.WaitGroup
+		wres := make([]string, nkeys)
+		for w := 0; w < writers; w++ {
+			wg.Add(1)
+			go func(w int) {
+				defer wg.Done()
+				for atomic.LoadInt32(&start) == 0 {
+				}
+				for i := w; i < nkeys; i += writers {
+					wres[i] = doCall(st, rewrite(keys[i], i)[0])
+				}
+			}(w)
+		}
+		if mode == "call" {
+			sw.Add(1)
+			go func() {
+				defer sw.Done()
+				for atomic.LoadInt32(&start) == 0 {
+				}
+				for atomic.LoadInt32(&writersDone) == 0 {
+					st.CleanupExpired()
+				}
+			}()
+		}
+		time.Sleep(50 * time.Microsecond)
+		atomic.StoreInt32(&start, 1)
+		if mode == "tick" {
+			// the ticker starts with the writers so that its first scans fall into the re-write phase
+			st.StartCleanup(time.Duration(40+20*(r%8)) * time.Microsecond)
+		}
+		wg.Wait()
+		atomic.StoreInt32(&writersDone, 1)
+		sw.Wait()
+		if mode == "tick" {
+			time.Sleep(500 * time.Microsecond)
+			st.StopCleanup()
+		}
+		st.CleanupExpired()
+		for i := 0; i < nkeys; i++ {
+			its := rewrite(keys[i], i)
+			obs := []string{"ok", wres[i]}
+			lost := false
+			for _, it := range its[1:] {
+				o := doCall(st, it)
+				obs = append(obs, o)
+				if o == "nf" || o == "F" {
+					lost = true
+				}
+			}
+			if lost {
+				totalLost++
+			}
+			if (lost && totalLost == 1) || (report == "" && r == rounds-1 && i == nkeys-1) {
+				j := i
+				if !lost {
+					j, its = 0, rewrite(keys[0], 0)
+					obs = []string{"ok", wres[0]}
+					for _, it := range its[1:] {
+						obs = append(obs, doCall(st, it))
+					}
+				}
+				report = "hist " + histOf(keys[j], its) + " obs " + strings.Join(obs, " ")
+			}
+		}
+		st.Close()
+		if totalLost > 0 {
+			break
+		}
+	}
+	return "keys " + strconv.Itoa(nkeys) + " lost " + strconv.Itoa(totalLost) + " " + report
+}
+
 // ---------------------------------------------------------------- dispatcher
 
 type result struct {
@@ -620,6 +826,24 @@ func execLine(line string, rounds int) []string {
 		return runConc(progs, rounds)
 	case "hammer":
 		return []string{runHammer(ts[1:])}
+	case "sweep":
+		return []string{runSweep(ts[1:])}
+	case "burst":
+		parts := splitTok(ts[1:], "/")
+		if len(parts) != 3 {
+			return []string{"bad-case"}
+		}
+		pre, e1 := parseItems(parts[0])
+		progs, e2 := parseProgs(parts[1])
+		suf, e3 := parseItems(parts[2])
+		if e1 != nil || e2 != nil || e3 != nil {
+			return []string{"bad-case"}
+		}
+		copies, br := 16, 2
+		if rounds > 1000 { // thorough
+			br = 12
+		}
+		return runBurst(pre, progs, callsOf(suf), copies, br)
 	}
 	return []string{"bad-case"}
 }
@@ -677,7 +901,7 @@ func modeOf(line string) string {
 		return "mem"
 	case "red":
 		return "red"
-	case "sched", "conc", "hammer":
+	case "sched", "conc", "hammer", "sweep", "burst":
 		return "conc"
 	}
 	return ""
@@ -759,7 +983,7 @@ func main() {
 	results := make([][]string, len(lines))
 	workers := 16
 	if *mode == "conc" {
-		workers = 4
+		workers = 5
 	}
 	if *mode == "mem" {
 		workers = 48 // sleep-bound; a burst that is delayed beyond burstMax is rerun
@@ -778,7 +1002,7 @@ func main() {
 				_, c := splitKey(lines[i])
 				done := make(chan []string, 1)
 				go func() {
-					if *mode == "conc" && !strings.HasPrefix(c, "sched") {
+					if *mode == "conc" && !strings.HasPrefix(c, "sched") && !strings.HasPrefix(c, "burst") {
 						done <- execChild(c, concRounds)
 					} else {
 						done <- execLine(c, concRounds)
